@@ -240,6 +240,19 @@ def run(ck):
                     if not has_imp:
                         ok = False
             ck.ob('R18.4', 'every-import-kind-registered', ok, L.loc(m) if m else '', 'Identifier and String imports both call data.import_module(..)')
+            # path-based: on every path through the loop body the import is registered or an ERROR is pushed
+            def ev(n):
+                if n.get('k') == 'MCall' and n.get('m') == 'import_module':
+                    return 'import'
+                if n.get('k') == 'MCall' and n.get('m') == 'push' and n.get('args') and 'Diagnostics' in (L.ty(n['recv'], adjusted=True) or L.ty(n['recv']) or ''):
+                    return 'warning' if nonediag.is_warning_push(n) else 'error'
+                return None
+            ps = H.paths(loop['body'], ev)
+            silent = [(c, e) for c, e, x in ps if 'import' not in e and 'error' not in e]
+            ck.ob('R18.4', 'every-import-registered-or-rejected', bool(ps) and not silent, L.loc(loop),
+                  'each of the %d paths through the import loop registers the module or pushes an error' % len(ps) if not silent else
+                  'on the path [%s] an import is neither registered nor rejected (events: %s): the component silently lacks that import, so its base type does not resolve when it is used from another document' %
+                  (H.describe_ctx(silent[0][0]), silent[0][1] or 'none'), fn=mc['path'])
 
     # ---- R18.5 per-source loop ----------------------------------------------------------------------------
     gu = B.fn('generate_ui')
@@ -273,5 +286,9 @@ def run(ck):
             ck.ob('R18.5', 'fatal-error-does-not-stop-the-loop', not exits, B.loc(loop),
                   'the loop over sources runs to exhaustion' if not exits else
                   'a non-diagnostic error of one source (unloadable file such as a bad suffix, I/O failure) still ends the loop (%s): sources named after it are not translated' % ', '.join(sorted(set(n['k'] for n in exits))))
+            import core as _core
+            import rules.c04 as c04
+            sh = _core.Shared(ck, 'R18.5', lambda r, k: r == 'R4.4' and k == 'per-source-error-propagates', 'C04:', ' [otherwise the exit status depends on which source is named last]')
+            c04.run(sh)
             src = pp(loop['iter'])
             ck.ob('R18.5', 'every-source-visited', 'sources' in src and not re.search(r'\b(skip|take|rev|filter|step_by)\b', src), B.loc(loop), 'iterates %s' % src)
